@@ -63,3 +63,4 @@ func verifNote(tag string, v interface{}) {
 func verifNative() bool                          { return true }
 func verifIsOpaque(s string) bool                { return false }
 func verifMarshalOf(s string, v interface{}) bool { b, err := json.Marshal(v); return err == nil && string(b) == s }
+func verifSameNode(a, b interface{}) bool { return true }
